@@ -501,9 +501,75 @@ def run(tier="quick", replay=None):
                     rl = op_local(t2["args"][0])
                     if rl is not None and (rl in src or (fl.back([rl]) & src & {x for x in src if "String" in fl.ty(x) and "Vec" in fl.ty(x)})):
                         bad.append("%s at %s" % (callee_of(t2), f.loc(b2)))
+            def producers_of(el):
+                """Callees an element value is computed with, including the bodies of closures handed to combinators on the way."""
+                out = set()
+                for x in fl.back_pure([el]):
+                    for _, tt in fl.call_defs.get(x, []):
+                        out.add(callee_of(tt) or "")
+                        for a in tt["args"]:
+                            c = op_const(a)
+                            cl = c.get("closure") if c else None
+                            l = op_local(a)
+                            if cl is None and l is not None:
+                                for _, _, st in f.stmts():
+                                    if st["pl"]["l"] == l and st["rv"]["k"] == "agg" and st["rv"].get("agg") == "closure":
+                                        cl = st["rv"]["closure"]
+                            if cl and cl in prog.fns:
+                                out |= {(callee_of(t3) or "") for _, t3 in prog.fns[cl].calls()}
+                return out
+            # ... and without entries of its own: an element that comes from a path computation (the program's directory,
+            # the current directory, an environment variable) makes this entry point search where the others do not
+            PATHISH = ("Path::parent", "Path::new", "Path::file_name", "::current_dir", "env::var", "::canonicalize", "use_filename",
+                       "Path::join", "PathBuf::push", "Path::to_str", "::dirname")
+            psrc = fl.back_pure([al]) if al is not None else set()
+            vec_src = {x for x in psrc if "Vec<std::string::String>" in fl.ty(x)}
+            for b2, t2 in f.calls():
+                nm = (callee_of(t2) or "").rsplit("::", 1)[-1]
+                if nm in ("push", "insert", "extend", "append", "extend_from_slice", "push_front") and t2["args"]:
+                    rl = op_local(t2["args"][0])
+                    if rl is None or not (fl.back_pure([rl]) & vec_src):
+                        continue
+                    for a in t2["args"][1:]:
+                        el = op_local(a)
+                        if el is None:
+                            continue
+                        prods = producers_of(el)
+                        hit = sorted(c for c in prods if any(k in c for k in PATHISH))
+                        if hit:
+                            bad.append("%s adds an entry computed with %s at %s" % (nm, hit[0].rsplit("::", 2)[-2] + "::" + hit[0].rsplit("::", 1)[-1], f.loc(b2)))
+            # vec![x, ..] literals feeding the vector
+            for x in vec_src:
+                for b2, tt in fl.call_defs.get(x, []):
+                    if (callee_of(tt) or "").rsplit("::", 1)[-1] in ("into_vec", "box_assume_init_into_vec_unsafe", "from_elem"):
+                        # the literal's elements are written through the box pointer: array aggregates stored into an alias of it
+                        box_l = op_local(tt["args"][0]) if tt["args"] else None
+                        # pointers taken directly from the box (one or two copy/cast hops), not the whole alias closure
+                        aliases = {box_l} if box_l is not None else set()
+                        for _hop in range(3):
+                            for _, _, st in f.stmts():
+                                if not st["pl"]["p"] and st["rv"]["k"] in ("use", "cast", "rawptr", "ref"):
+                                    for o in rv_operands(st["rv"]):
+                                        pp = op_place(o)
+                                        if not pp or "[std::string::String;" not in f.local_ty(pp["l"]) + f.local_ty(st["pl"]["l"]):
+                                            continue
+                                        if pp["l"] in aliases:
+                                            aliases.add(st["pl"]["l"])
+                                        elif st["pl"]["l"] in aliases:
+                                            aliases.add(pp["l"])
+                        prods = set()
+                        for _, _, st in f.stmts():
+                            if st["rv"]["k"] == "agg" and st["rv"].get("agg") == "array" and fl.node(st["pl"]) in aliases:
+                                for o in st["rv"]["ops"]:
+                                    ol = op_local(o)
+                                    if ol is not None:
+                                        prods |= producers_of(ol)
+                        hit = sorted(c for c in prods if any(k in c for k in PATHISH))
+                        if hit:
+                            bad.append("a vec![..] literal holding an entry computed with %s at %s" % (hit[0].rsplit("::", 1)[-1], f.loc(b2)))
             R.check(not bad, "R11.f", "R11.f|search-paths|%s" % f.path, f.loc(bb),
                     "auto: the include search path is handed to the compiler without reordering or dropping entries",
-                    "%s reorders or filters the include search path before compiling (%s): the first-match include resolution then "
+                    "%s reorders, filters or extends the include search path before compiling (%s): the first-match include resolution then "
                     "differs from the other entry points given the same -i list" % (f.path, "; ".join(bad)), fn=f.path)
     R.floor("R11.f", "set_search_paths call sites in entry points", nsp, 2)
 
